@@ -170,6 +170,8 @@ def r08_3(run, model):
     run.ob("R08.3", "transform_closure|captures computed once", len(cc) == 1, site(LIFT, f.node["sp"]), f"{len(cc)} calls to collect_captured")
 
 
+# node kinds whose type is a function of their (converted) children: passing the old type through is wrong for them
+DEPENDENT_TYPES = {"ELet": "its body", "ETuple": "its items", "EProj": "the projected tuple", "EConstrGet": "the field's (rewritten) declared type"}
 TYPE_SOURCES = {"get_struct_field_ty", "get_enum_field_ty"}  # declared field types of the (lifted) type definitions
 
 
@@ -206,6 +208,11 @@ def r08_5(run, model):
                     continue
                 e = fl["expr"]
                 if e is None or (e["k"] == "Path" and e["segs"] == ["ty"] and "ty" in passthrough and "ty" not in lets):
+                    if variant in DEPENDENT_TYPES:
+                        n += 1
+                        run.ob("R08.5", f"transform_expr|{variant} type from converted children", False, site(LIFT, st["sp"]),
+                               f"{variant} keeps the type it had before conversion; its type depends on {DEPENDENT_TYPES[variant]}",
+                               witness="fn make() -> (int32) -> int32 { let k = 1; |x| x + k }: the let keeps the function type while its body is a closure struct; callers call the struct as a bare func")
                     continue  # unchanged type
                 # transitive closure of the defining expressions
                 seen, work, exprs = set(), [e], []
@@ -277,7 +284,30 @@ def r08_8(run, model):
     run.floor("same-name delegations in the lift/mono environments", n, 4)
 
 
+def r08_10(run, model):
+    run.rule("R08.10", "every binder of the lifted language is registered in the conversion scope: transform_closure inserts each closure "
+                       "parameter (inside a pushed layer) before the body is converted, as the let arm does for its name - an inner closure "
+                       "finds captured variables through that scope")
+    f = model.fn("transform_closure", LIFT)
+    ins = [c for c in S.walk(f.body) if c["k"] == "MethodCall" and c["method"] == "insert" and S.is_path(c["recv"], "scope") and c["args"] and
+           "param" in S.norm_ws(run.facts.text(LIFT, c["args"][0]["sp"]))]
+    body_conv = [c for c in S.calls(f.body, "transform_expr")]
+    ok = bool(ins) and bool(body_conv) and all((i["sp"][0], i["sp"][1]) < (body_conv[0]["sp"][0], body_conv[0]["sp"][1]) for i in ins)
+    run.ob("R08.10", "transform_closure|parameters registered before the body is converted", ok, site(LIFT, f.node["sp"]),
+           f"{len(ins)} scope.insert(param..) before transform_expr(body)",
+           witness="|x| { |y| x + y }: the inner closure does not capture the outer parameter x: its apply function reads an undeclared variable")
+    g = model.fn("transform_expr", LIFT)
+    let_ins = 0
+    for m in S.find(g.body, "Match"):
+        for arm in m["arms"]:
+            if re.match(r"MonoExpr::ELet\{", S.norm_ws(run.facts.text(LIFT, arm["pat"]["sp"]))):
+                let_ins = sum(1 for c in S.walk(arm["body"]) if c["k"] == "MethodCall" and c["method"] == "insert" and S.is_path(c["recv"], "scope"))
+        break
+    run.ob("R08.10", "transform_expr|let names registered", let_ins >= 1, site(LIFT, g.node["sp"]), f"{let_ins} scope.insert in the ELet arm")
+
+
 def run(run, model):
+    run.try_rule(r08_10, model)
     from rules import c19
     run.rule("R08.9", "captured variables get distinct environment fields (shared with C19 R19.6)")
     run.try_rule(c19.r19_6, model)
